@@ -119,10 +119,11 @@ def job_exec(args):
                          X.exec_sim(REPO, argv, side, hs, rng, scratch, npulses,
                                     disk={'opt.txt': 'STALE\n' * 200})))
         if spec.get('real'):
-            r = X.exec_real(REPO, argv, rng.randrange(1, 4294967295), rng, scratch)
-            if ref['outcome'] == 'rc:23' and r['outcome'] == 'ok':
-                r['outcome'] = 'rc:23'      # __main__ ignores main()'s return value
-            runs.append(('real', r))
+            for tty in (False, True):
+                r = X.exec_real(REPO, argv, rng.randrange(1, 4294967295), rng, scratch, tty=tty)
+                if ref['outcome'] == 'rc:23' and r['outcome'] == 'ok':
+                    r['outcome'] = 'rc:23'      # __main__ ignores main()'s return value
+                runs.append(('real tty' if tty else 'real', r))
         viol = []
         for name, r in runs[1:]:
             if r['outcome'] != ref['outcome']:
@@ -139,7 +140,7 @@ def job_exec(args):
                                      detail='%s: %s' % (name, first_diff(r['files'].get(k) or '', ref['files'].get(k) or ''))))
         h = hashlib.sha256(json.dumps([[n, r['outcome'], r['stdout'], r['files']] for n, r in runs],
                                       sort_keys=True).encode()).hexdigest()
-        return dict(ok=True, violations=viol, runs=len(runs) - 1, real=1 if spec.get('real') else 0,
+        return dict(ok=True, violations=viol, runs=len(runs) - 1, real=2 if spec.get('real') else 0,
                     faults=dict(S.FAULTS), digest=h, outcome=ref['outcome'],
                     plan=dict(kind='exec', seed=spec['seed'], argv=argv, npulses=npulses, sides=sides,
                               hashseeds=hashseeds, real=bool(spec.get('real'))),
